@@ -25,9 +25,15 @@ structure DConf where
 structure DState where
   confs : List (String × DConf) := []
   json : List (Bytes × Option IdentifyData) := []
-  broker : Broker := []
+  brokers : List (String × Broker) := []   -- one broker per configuration (= per nsqd)
 
 def b01 (s : String) : Bool := s == "1"
+
+def DState.broker (st : DState) (cid : String) : Broker :=
+  ((st.brokers.find? (·.1 == cid)).map (·.2)).getD []
+
+def DState.setBroker (st : DState) (cid : String) (b : Broker) : DState :=
+  { st with brokers := (cid, b) :: st.brokers.filter (·.1 != cid) }
 
 def fnv1a (bs : Bytes) : UInt32 :=
   bs.foldl (fun h c => (h ^^^ c.toUInt32) * 16777619) 2166136261
@@ -140,20 +146,20 @@ def stepLine (st : DState) (line : String) : DState × String :=
     match unhex h, parseJson rest with
     | some body, some d => ({ st with json := (body, d) :: st.json }, "ok")
     | _, _ => (st, "bad-op")
-  | ["reset"] => ({ st with broker := [] }, "ok")
+  | ["reset"] => ({ st with brokers := [] }, "ok")
   | ["io", cid, h] =>
     match st.confs.find? (·.1 == cid), unhex h with
     | some (_, dc), some bs =>
       let tbl := st.json
       let conf := { dc.conf with decode := fun body => (lookupJson tbl body).getD none }
       let s0 := freshConn dc.hbNs dc.obtNs dc.mtNs
-      let need := if bs.take 4 == magicV2 then scanNeed conf tbl s0 st.broker (bs.drop 4) else none
+      let need := if bs.take 4 == magicV2 then scanNeed conf tbl s0 (st.broker cid) (bs.drop 4) else none
       match need with
       | some body => (st, s!"need-json {hex body}")
       | none =>
-        let r := serve conf s0 st.broker bs
+        let r := serve conf s0 (st.broker cid) bs
         let conn := if r.fin == .eof then showConn r.st else "-"
-        ({ st with broker := r.broker },
+        (st.setBroker cid r.broker,
          s!"R={joinOr "," (r.replies.map showReply)} E={showEnd r.fin} S={conn} B={showBroker r.broker}")
     | _, _ => (st, "bad-op")
   | ["http", cid, method, hp, hq, cl, hb, healthy] =>
@@ -162,8 +168,8 @@ def stepLine (st : DState) (line : String) : DState × String :=
       let rq : HttpApi.Request :=
         { method := Names.ascii method, path := path, rawQuery := query, contentLength := parseInt cl,
           body := body }
-      let r := HttpApi.handle dc.http (b01 healthy) st.broker rq
-      ({ st with broker := r.2 },
+      let r := HttpApi.handle dc.http (b01 healthy) (st.broker cid) rq
+      (st.setBroker cid r.2,
        s!"H={HttpApi.showStatus r.1.status} M={if r.1.msg.isEmpty then "-" else r.1.msg} B={showBroker r.2}")
     | _, _, _, _ => (st, "bad-op")
   | ["name", h] =>
